@@ -52,9 +52,25 @@ pub fn configs(tier: Tier, judge: u32, liveness: bool) -> Vec<OutCfg> {
                     } else {
                         vec![(0, true, 0), (1, false, 0), (2, false, 0), (0, false, 1), (1, false, 1)]
                     };
-                    for (cancels, batch, bp) in variants {
+                    let mut variants: Vec<(u8, bool, u8, bool)> = variants.into_iter().map(|(c, b, p)| (c, b, p, false)).collect();
+                    if liveness && cap == 1 && size == 2 && (tier == Tier::Thorough || senders.iter().all(|k| matches!(k, SK::Q1 | SK::Ready | SK::Q2Rel))) {
+                        // write back-pressure that really engages: a QoS 0 publish larger than the 16-byte write
+                        // buffer goes first while the peer does not read; the other senders then park on back-pressure
+                        variants.push((1, false, 1, true));
+                        if tier == Tier::Thorough {
+                            variants.push((2, false, 1, true));
+                        }
+                    }
+                    for (cancels, batch, bp, fill) in variants {
                         if !liveness && cancels > 1 {
                             continue;
+                        }
+                        let mut senders = senders.clone();
+                        if fill {
+                            senders.insert(0, SK::Q0Fill);
+                            if !senders.contains(&SK::Q1) || senders.len() < 4 {
+                                senders.push(SK::Q1);
+                            }
                         }
                         v.push(OutCfg {
                             ep: ep_for(EpCfg::new(ver, role), cap, bp > 0),
@@ -99,12 +115,12 @@ pub fn run(tier: Tier) -> i32 {
 pub fn run_c13(tier: Tier) -> i32 {
     let mut ck = Check::new("C13", tier, Duration::from_secs(if tier == Tier::Quick { 50 } else { 1500 }));
     let cfgs = configs(tier, J_LIVENESS, true);
-    let ecfg = ExploreCfg { max_dev: if tier == Tier::Quick { 1 } else { 2 }, max_execs: if tier == Tier::Quick { 20_000 } else { 400_000 }, ..Default::default() };
+    let ecfg = ExploreCfg { max_dev: if tier == Tier::Quick { 1 } else { 2 }, max_execs: if tier == Tier::Quick { 60_000 } else { 1_000_000 }, ..Default::default() };
     for (i, c) in cfgs.iter().enumerate() {
         ck.explore::<Out>("outbound", i, c, &ecfg);
     }
     ck.rule = format!(
-        "same world as C05 plus readiness futures and up to 2 cancellations of parked/awaiting tasks and a write back-pressure episode; liveness oracle at the end of every execution: after the window is reopened and the correct peer has acknowledged every packet it received (repeated until nothing changes) every started, non-cancelled send / ready() future has completed successfully and the connection is still up; up to {} injections while tasks are runnable",
+        "same world as C05 plus readiness futures and up to 2 cancellations of parked/awaiting tasks and a write back-pressure episode (peer window closed; with a 24-byte QoS 0 publish first so that the 16-byte write buffer overflows and the library's back-pressure state really engages); liveness oracle at the end of every execution: after the window is reopened and the correct peer has acknowledged every packet it received (repeated until nothing changes) every started, non-cancelled send / ready() future has completed successfully and the connection is still up; up to {} injections while tasks are runnable",
         ecfg.max_dev
     );
     ck.assumptions = vec!["FIFO task order of ntex-rt; nondeterminism = timing of environment events (DESIGN 2.4)".into()];
